@@ -81,6 +81,7 @@ type vProcResult struct {
 	err     error
 	gotErr  bool
 	closedOK bool
+	endedAtQuiescence bool
 }
 
 func verifMarshalInit(in *fmp4.Init) []byte {
@@ -127,6 +128,7 @@ func verifRunFMP4(in *fmp4.Init, segs [][]*fmp4.Part, dts []*time.Time) *vProcRe
 		verifLog("routine error:", res.err.Error())
 	default:
 	}
+	res.endedAtQuiescence = res.sd.ended
 	rp.close() // must return: every routine honours cancellation
 	res.closedOK = true
 	return res
@@ -368,6 +370,9 @@ func VerifH_C13_fmp4() {
 	}
 	res := verifRunFMP4(in, [][]*fmp4.Part{parts}, []*time.Time{dt})
 	verifReach("ran")
+	// the end-of-stream marker is queued right behind the segment: a client that neither failed nor
+	// reached it is wedged
+	verifAssert("C13", "skips-the-piece-or-ends-with-an-error", res.gotErr || res.endedAtQuiescence)
 	verifAssert("C13", "close-honoured", res.closedOK)
 	verifAssert("C13", "no-routine-left-after-close", verifLiveThreads() == 0)
 	for _, d := range res.sd.delivered {
